@@ -80,6 +80,11 @@ def field_of(n, owner_sub):
 
 
 def run(ctx):
+    _run_main(ctx)
+    database_snapshot_opened(ctx)
+
+
+def _run_main(ctx):
     F = ctx.facts
     ctx.explanation = ("(a) snapshot handles of the read transactions are fixed at construction (K1: constructors, assignments, swaps and re-acquisitions enumerated crate-wide); "
                        "(b) entry cache before database on acquisition, database before caches on commit (K6); (c) search for an exclusion spanning QueryServer::read's multi-step "
@@ -315,3 +320,36 @@ def run(ctx):
                       ". Expected: a Mutex/RwLock/single-permit semaphore of QueryServer taken before the first acquisition in read() and held by the writer across all publications, or one versioned cell. "
                       "A commit landing between two acquisitions gives the reader old schema with new entries, or an old entry cache with a new SQLite snapshot (torn snapshot, finding F5).",
                       file=qb.rec["file"], line=(reads[0].get("line") if reads else qb.rec["line"]))
+
+
+# ---------------------------------------------------------------------------------------------------------------------
+# The database half of a read transaction's snapshot exists only while an SQL transaction is open on its connection:
+# without one every statement runs in autocommit mode and a lookup that misses the caches returns whatever the latest
+# commit wrote. (added after seeded change C06: `BEGIN DEFERRED` replaced by a temporary rusqlite Transaction guard that is
+# dropped - and rolled back - at the end of the statement)
+
+def database_snapshot_opened(ctx):
+    from .lib.x_order import lit_text
+    R = "K1-read-snapshot-opened"
+    T = "kanidmd_lib::be::idl_sqlite::IdlSqliteReadTransaction::"
+    new = ctx.fn(LIB, T + "new")
+    begins = []
+    for n in walk(new["body"]):
+        if n.get("e") == "mcall" and n.get("name") in ("execute", "execute_batch") and "Connection" in str(n.get("recv_ty", "")):
+            sql = " ".join(filter(None, (lit_text(x) for x in walk({"a": n.get("args", [])}))))
+            if sql.strip().upper().startswith("BEGIN"):
+                begins.append((n, sql))
+    ctx.check(len(begins) >= 1, R, new["fn"], "begin-executed-on-connection", f"executes {[b[1] for b in begins]}",
+              "IdlSqliteReadTransaction::new no longer executes a BEGIN statement on the pooled connection: the read transaction has no database snapshot, "
+              "every lookup that misses the caches sees the newest committed state, and a repeated query inside one read transaction can change its answer",
+              file=new["file"], line=new["line"])
+    # the guard-object API would end the transaction when the temporary is dropped
+    guard_api = [n for n in walk(new["body"]) if n.get("e") == "mcall" and n.get("name") in ("unchecked_transaction", "transaction", "savepoint")]
+    ctx.check(not guard_api, R, new["fn"], "no-transaction-guard-object", "no rusqlite Transaction guard",
+              "IdlSqliteReadTransaction::new opens the SQL transaction through a rusqlite guard object; unless that guard is stored in the read transaction it is "
+              "dropped (rolled back) at the end of the statement and the snapshot is gone", file=new["file"], line=guard_api[0].get("line") if guard_api else None)
+    # the struct is built only after BEGIN succeeded
+    ctor = [n for n in walk(new["body"]) if n.get("e") == "struct" and n["path"].get("def", "").endswith("idl_sqlite::IdlSqliteReadTransaction")]
+    ctx.check(bool(ctor) and bool(begins) and all(c.get("line", 0) >= begins[0][0].get("line", 0) for c in ctor), R, new["fn"], "constructed-after-begin",
+              "the transaction object is built after BEGIN", "IdlSqliteReadTransaction is constructed before / without the BEGIN statement",
+              file=new["file"], line=new["line"])
